@@ -201,9 +201,14 @@ Definition tok_text (k : tkind) : list N :=
   | KEOI => []
   end.
 
-(** the whitespace the pattern lexer skips between tokens: space, tab, newline *)
-Definition skip_ws (w : list N) : bool :=
-  forallb (fun c => (c =? 32) || (c =? 9) || (c =? 10)) w.
+(** Unicode White_Space (what [char::is_whitespace] tests), as a literal table *)
+Definition unicode_ws (c : N) : bool :=
+  ((9 <=? c) && (c <=? 13)) || (c =? 32) || (c =? 133) || (c =? 160) || (c =? 5760)
+  || ((8192 <=? c) && (c <=? 8202)) || (c =? 8232) || (c =? 8233) || (c =? 8239)
+  || (c =? 8287) || (c =? 12288).
+
+(** a run of whitespace characters *)
+Definition skip_ws (w : list N) : bool := forallb unicode_ws w.
 
 Definition render (items : list (list N * tkind)) (trail : list N) : list N :=
   flat_map (fun it : list N * tkind => fst it ++ tok_text (snd it)) items ++ trail.
@@ -212,9 +217,7 @@ Definition render (items : list (list N * tkind)) (trail : list N) : list N :=
     character and not (Unicode) whitespace *)
 Definition plain_char (c : N) : bool :=
   negb (existsb (N.eqb c) [33; 38; 124; 40; 41; 43; 63; 42])
-  && negb (((9 <=? c) && (c <=? 13)) || (c =? 32) || (c =? 133) || (c =? 160) || (c =? 5760)
-           || ((8192 <=? c) && (c <=? 8202)) || (c =? 8232) || (c =? 8233) || (c =? 8239)
-           || (c =? 8287) || (c =? 12288)).
+  && negb (unicode_ws c).
 
 Definition kind_ok (k : tkind) : bool :=
   match k with
@@ -223,7 +226,7 @@ Definition kind_ok (k : tkind) : bool :=
   | _ => true
   end.
 
-(** well-formed rendering: whitespace from the skipped set, sensible tokens, and two
+(** well-formed rendering: whitespace runs, sensible tokens, and two
     adjacent predicate tokens separated by at least one whitespace character *)
 Fixpoint items_ok (items : list (list N * tkind)) : bool :=
   match items with
